@@ -17,6 +17,8 @@ def contract_tasks(module, prop, configure=None, names=None):
             conf = getattr(c, "configure", None) or configure
             if conf:
                 t["configure"] = conf
+            if getattr(c, "configure_small", None):
+                t["configure_small"] = c.configure_small
             out.append(t)
     return out
 
